@@ -31,6 +31,8 @@ def canon(o, fn_names=None, _seen=None):
         return o
     t = type(o)
     if t is str:
+        if ' at 0x' in o:
+            return _ADDR.sub(' at 0x?', o)      # the text of a stringified function embeds a memory address
         return o
     if t is int:
         if o.bit_length() > 12000:      # str() of such an int raises ValueError (int/str conversion limit)
